@@ -63,4 +63,22 @@ META = {
         "text": "Jobs block until the generator finishes them. Checked at every job start: active <= limit and single execution; at quiescence: Enqueue() equals both the model and the harness ground truth, no job waits while a slot is free, observers are not blocked while idle; WaitIdle nil implies all earlier jobs finished; limit 1 start order equals enqueue (critical-section) order; every reported pair satisfies queued>0 => running==limit.",
         "note": "Bounded: <= 60 ops, batches <= 4.",
     },
+    "C04": {
+        "engine": "E2/E1 controlled scheduler with scripted instances (exit latency is generated)", "design_ref": "DESIGN.md §4 C04",
+        "technique": "stateful PBT with generated schedule and scripted user functions; overlap counter at function entry; returned wait channels checked against instance returns",
+        "text": "Generated SetContext/SetRoutine/SetState/SetStateRoutine/RestartRoutine histories in which instances keep 'returning' until a generated Finish, with routine.exec and Broadcast tickets left parked across calls. At every entry of the managed function no other instance may be executing; a channel returned by SetRoutine/SetState may only be closed once every instance of an earlier generation has returned, and no such instance may enter afterwards.",
+        "note": "Instance goroutines are bound to the reference machine's spawn tokens by creation order at the routine.exec hook.",
+    },
+    "C05": {
+        "engine": _E1, "design_ref": "DESIGN.md §4 C05",
+        "technique": "model-based stateful PBT with concurrent mutators; reference machine (Appendix A.2) advanced in critical-section grant order; cancellation checked when each mutator returns; survivor checked at quiescence",
+        "text": "Concurrent mutator goroutines; when a mutator returns, every instance the machine says it superseded must have a cancelled context; at full quiescence at most one instance has a live context, only if the machine is Running, and it carries the container's current context id and the most recently stored (unique) state; a Running machine with nothing executing is reported.",
+        "note": "The container's root context is never cancelled from outside (only replaced), see DESIGN Appendix A.2.",
+    },
+    "C14": {
+        "engine": "E2 sequential histories in virtual time", "design_ref": "DESIGN.md §4 C14",
+        "technique": "model-based PBT against the documented state machine in virtual time: scripted outcomes, scripted back-off, exact run/return-value/back-off-log/exit-callback/WaitExited comparison after every settled step",
+        "text": "Every mutator's return values equal the machine's; the managed function is entered exactly by the instances the machine starts (success never re-run except by RestartRoutine/new routine; failure re-run by RestartRoutine, SetContext(restart) or the back-off timer at exactly t+b); NextBackOff/Reset call counts equal the machine's; current exits are reported exactly once to each exit callback; WaitExited returns exactly what was returnable at its last look and is never blocked at quiescence while returnable.",
+        "note": "A pending retry dropped by SetContext(other,false)/ClearContext follows the code (not asserted either way); exits of instances superseded by SetRoutine may be reported to callbacks (0 or 1 times).",
+    },
 }
